@@ -853,6 +853,538 @@ fn capped_queries_near_bbox_corners(r: &mut Report, isos: &[I3]) {
     }
 }
 
+
+// ------------------------------------------------------------------------------------------------ wave 5
+// Parameter-space audit (notes/w5_audit_C03.md): (i) a third isometry family - motions FAR from the origin: rotations (quarter /
+// half turns, 30 degrees, 0.7 rad, 1e-6 and 1e-8 rad) about pivots at radius 500, i.e. a long lever arm and a translation part of
+// up to 1e3 - under which every entity check of the file is repeated; (ii) the entity types / APIs of the anchored files that had
+// no clause so far: SurfacePoint2 helpers, 2D <-> 3D lifting of surface points and point lists, Plane3 constructors and
+// inverted_normal, Line2 methods / Segment2::offsetted / rays / intersection parameters, point helpers (dist, mid / mean points,
+// extreme point, interpolation error), point lists of 0 .. 1001 points with inverse and composition, PointCloud merge / append /
+// empty / conversions / sub-selection / bounding box at 0 .. 1001 points, Distance<D>::new given in another frame, curve stations
+// (normal, surface point, plane), curve bounding boxes, extreme points, ray intersections, more curve shapes (closed within
+// tolerance, hairpin, thin rectangle, reversed numbering, 100 / 1500 vertices), Mesh bounding box / face and vertex normals /
+// append / convex hull / UV kept, meshes with > 32, > 1000 and > 4096 faces, line_surface_deviations with Some(interval).
+pub fn far_isos3() -> Vec<I3> {
+    let x = Vector3::x_axis(); let z = Vector3::z_axis();
+    let q = |a: &parry3d_f64::na::Unit<Vector3>, ang: f64| UnitQuaternion::from_axis_angle(a, ang);
+    let rots: Vec<(&str, UnitQuaternion<f64>)> = vec![
+        ("Rz90", q(&z, FRAC_PI_2)), ("Rx180", q(&x, PI)), ("Rz30", q(&z, FRAC_PI_6)), ("R(1,2,3)0.7", q(&u3(1.0, 2.0, 3.0), 0.7)),
+        ("R(1,1,1)->x", UnitQuaternion::rotation_between(&Vector3::new(1.0, 1.0, 1.0), &Vector3::x()).unwrap()),
+        ("R(1,2,3)1e-6", q(&u3(1.0, 2.0, 3.0), 1.0e-6)), ("Rz1e-8", q(&z, 1.0e-8)),
+    ];
+    let pivots = [(500.0, 0.0, 0.0), (0.0, -300.0, 400.0), (180.0, 240.0, 400.0)];
+    let mut out = vec![];
+    for (n, rt) in rots.iter() { for (a, b, c) in pivots {
+        let cv = Vector3::new(a, b, c);
+        out.push(I3 { name: format!("T=[{} about the pivot ({},{},{})]", n, a, b, c), t: Iso3::from_parts(Translation3::from(cv - rt * cv), *rt), exact: false });
+    } }
+    // unusual but legal REPRESENTATIONS of a motion: the identity and a general rotation stored with the negated quaternion (q and -q
+    // are the same rotation), a half turn about an oblique axis (scalar part ~ 6e-17), a turn of 2 pi - 1e-7, a shift with -0.0 parts
+    let neg = |u: UnitQuaternion<f64>| UnitQuaternion::new_unchecked(-u.into_inner());
+    let g = q(&u3(1.0, 2.0, 3.0), 0.7);
+    out.push(I3 { name: "T=[identity stored as the quaternion -1, no translation]".to_string(), t: Iso3::from_parts(Translation3::new(0.0, 0.0, 0.0), neg(UnitQuaternion::identity())), exact: false });
+    out.push(I3 { name: "T=[identity stored as the quaternion -1 then +(1,-2,3)]".to_string(), t: Iso3::from_parts(Translation3::new(1.0, -2.0, 3.0), neg(UnitQuaternion::identity())), exact: false });
+    out.push(I3 { name: "T=[R(1,2,3)0.7 stored with the negated quaternion then +(-4,0.5,2.25)]".to_string(), t: Iso3::from_parts(Translation3::new(-4.0, 0.5, 2.25), neg(g)), exact: false });
+    out.push(I3 { name: "T=[half turn about (1,2,3) then +(1,-2,3)]".to_string(), t: Iso3::from_parts(Translation3::new(1.0, -2.0, 3.0), q(&u3(1.0, 2.0, 3.0), PI)), exact: false });
+    out.push(I3 { name: "T=[rotation by 2*pi - 1e-7 about (1,2,3) then +(1,-2,3)]".to_string(), t: Iso3::from_parts(Translation3::new(1.0, -2.0, 3.0), q(&u3(1.0, 2.0, 3.0), 2.0 * PI - 1.0e-7)), exact: false });
+    out.push(I3 { name: "T=[no rotation, +(-0.0,1000,-0.0)]".to_string(), t: Iso3::from_parts(Translation3::new(-0.0, 1000.0, -0.0), UnitQuaternion::identity()), exact: false });
+    out
+}
+fn far_isos2() -> Vec<I2> {
+    let mut out = vec![];
+    for (n, a) in [("90", FRAC_PI_2), ("180", PI), ("30", FRAC_PI_6), ("2rad", 2.0), ("1e-6rad", 1.0e-6), ("1e-8rad", 1.0e-8)] { for (px, py) in [(500.0, 0.0), (-300.0, 400.0)] {
+        let rt = UnitComplex::new(a); let cv = Vector2::new(px, py);
+        out.push(I2 { name: format!("T=[rot {} about the pivot ({},{})]", n, px, py), t: Iso2::from_parts(Translation2::from(cv - rt * cv), rt) });
+    } }
+    for (n, a) in [("-180", -PI), ("2*pi - 1e-7", 2.0 * PI - 1.0e-7), ("-1e-7", -1.0e-7)] {
+        out.push(I2 { name: format!("T=[rot {} then +(3,-1.5)]", n), t: Iso2::from_parts(Translation2::new(3.0, -1.5), UnitComplex::new(a)) });
+    }
+    out.push(I2 { name: "T=[no rotation, +(-0.0,1000)]".to_string(), t: Iso2::from_parts(Translation2::new(-0.0, 1000.0), UnitComplex::identity()) });
+    out
+}
+fn sp3_same(a: &SurfacePoint3, b: &SurfacePoint3) -> bool { cp3(&a.point, &b.point) && cv3(&a.normal, &b.normal) }
+fn sp2_same(a: &SurfacePoint2, b: &SurfacePoint2) -> bool { cp2(&a.point, &b.point) && cv2(&a.normal, &b.normal) }
+/// deterministic point lists with dyadic coordinates (no two consecutive points equal)
+fn gen3(n: usize) -> Vec<Point3> { (0..n).map(|k| p3(((k * 7) % 16) as f64 * 0.25 - 2.0, ((k * 5) % 11) as f64 * 0.5 - 2.5, ((k * 3) % 13) as f64 * 0.125 + (k / 13) as f64 * 0.0625)).collect() }
+fn gen2(n: usize) -> Vec<Point2> { (0..n).map(|k| p2(((k * 7) % 16) as f64 * 0.25 - 2.0 + (k / 16) as f64 * 0.03125, ((k * 5) % 11) as f64 * 0.5 - 2.5)).collect() }
+fn gen_n3(n: usize) -> Vec<UnitVec3> { (0..n).map(|k| u3(1.0 + (k % 3) as f64, (k % 5) as f64 - 2.0, 1.0 + (k % 2) as f64)).collect() }
+fn gen_c(n: usize) -> Vec<[u8; 3]> { (0..n).map(|k| [(k % 251) as u8, (k % 7) as u8, (k / 7 % 256) as u8]).collect() }
+
+fn w5_surface_points(r: &mut Report, isos3: &[I3], isos2: &[I2]) {
+    use crate::{AngleDir, To2D};
+    let sps = [SurfacePoint2::new(p2(0.5, -1.0), u2(0.0, 1.0)), SurfacePoint2::new(p2(0.0, 0.0), u2(3.0, 4.0)), SurfacePoint2::new(p2(-2.0, 0.75), u2(1.0, -1.0))];
+    let sps3 = [SurfacePoint3::new(p3(0.5, -1.0, 2.0), u3(1.0, 0.0, 1.0)), SurfacePoint3::new(p3(0.0, 0.0, 0.0), u3(1.0, 2.0, 2.0)), SurfacePoint3::new(p3(-2.0, 0.75, 1.0), u3(1.0, -1.0, 0.0))];
+    for it in isos2.iter() { let t = &it.t; let l = lift2(t);
+        for sp in sps.iter() {
+            r.case();
+            let d = || format!("SurfacePoint2 {{ point: {:?}, normal: {:?} }} {}", sp.point.coords.as_slice(), sp.normal.as_slice(), it.name);
+            let m = sp.transformed(t);
+            for h in [-1.5, 0.0, 2.0] {
+                r.check(sp2_same(&sp.shift(h).transformed(t), &m.shift(h)), "SurfacePoint2::shift commutes with T", || format!("{} offset {}", d(), h));
+                r.check(sp2_same(&sp.shift_orthogonal(h).transformed(t), &m.shift_orthogonal(h)), "SurfacePoint2::shift_orthogonal commutes with T", || format!("{} distance {}", d(), h));
+                r.check(sp2_same(&sp.rot_normal(h).transformed(t), &m.rot_normal(h)), "SurfacePoint2::rot_normal commutes with T", || format!("{} angle {}", d(), h));
+            }
+            r.check(sp2_same(&sp.reversed().transformed(t), &m.reversed()), "SurfacePoint2::reversed commutes with T", d);
+            r.check(sp2_same(&sp.rot_normal_90(AngleDir::Cw).transformed(t), &m.rot_normal_90(AngleDir::Cw)) && sp2_same(&sp.rot_normal_90(AngleDir::Ccw).transformed(t), &m.rot_normal_90(AngleDir::Ccw)), "SurfacePoint2::rot_normal_90 commutes with T", d);
+            // lifting to 3D commutes with an in-plane motion and its lift
+            r.check(sp3_same(&m.to_3d(), &sp.to_3d().transformed(&l)), "SurfacePoint2::to_3d commutes with an in-plane motion (the lifted surface point moves by the lifted T)", d);
+        }
+        for sp in sps3.iter() {
+            r.case();
+            let d = || format!("SurfacePoint3 {{ point: {:?}, normal: {:?} }} in-plane {}", sp.point.coords.as_slice(), sp.normal.as_slice(), it.name);
+            r.check(sp2_same(&sp.transformed(&l).to_2d(), &sp.to_2d().transformed(t)), "SurfacePoint3::to_2d commutes with an in-plane motion (rotation about z, translation)", d);
+            r.check(cp2(&(l * sp.point).to_2d(), &(t * sp.point.to_2d())) && cv2(&(l * sp.normal.into_inner()).to_2d(), &(t * sp.normal.into_inner().to_2d())), "Point3 / Vector3::to_2d commute with an in-plane motion", d);
+        }
+        let pts2 = gen2(9); let pts3 = gen3(9);
+        r.case();
+        let up = (&pts2[..]).to_3d(); let moved2: Vec<Point2> = pts2.iter().map(|p| t * p).collect(); let up_m = (&moved2[..]).to_3d();
+        r.check(up.len() == 9 && up_m.len() == 9 && (0..9).all(|k| cp3(&up_m[k], &(l * up[k])) && up[k].z == 0.0), "&[Point2]::to_3d commutes with an in-plane motion", || format!("9 points {}", it.name));
+        let moved3: Vec<Point3> = pts3.iter().map(|p| l * p).collect();
+        let (dn_a, dn_b) = ((&moved3[..]).to_2d(), moved3.to_2d()); let dn = (&pts3[..]).to_2d();
+        r.check(dn_a.len() == 9 && dn_b.len() == 9 && (0..9).all(|k| cp2(&dn_a[k], &(t * dn[k])) && cp2(&dn_b[k], &(t * dn[k]))), "&[Point3] / Vec<Point3>::to_2d commute with an in-plane motion", || format!("9 points {}", it.name));
+        let spl: Vec<SurfacePoint3> = sps3.iter().map(|s| s.transformed(&l)).collect();
+        let (fa, fb) = ((&spl[..]).to_2d(), (&spl).to_2d());
+        r.check(fa.len() == 3 && fb.len() == 3 && (0..3).all(|k| sp2_same(&fa[k], &sps3[k].to_2d().transformed(t)) && sp2_same(&fb[k], &fa[k])), "&[SurfacePoint3] / &Vec<SurfacePoint3>::to_2d commute with an in-plane motion", || format!("3 surface points {}", it.name));
+    }
+    // the owned-value operator forms under the 3D family: T then T^-1, composition (the reference forms are covered by surface_points3)
+    for (i, it) in isos3.iter().enumerate() { let t = &it.t; let s = &isos3[partner(i, isos3.len())].t; let ti = t.inverse(); let ts = t * s;
+        for sp in sps3.iter() {
+            r.case();
+            let d = || format!("SurfacePoint3 {{ point: {:?}, normal: {:?} }} {}", sp.point.coords.as_slice(), sp.normal.as_slice(), it.name);
+            r.check(sp3_same(&(&ti * (t * sp)), sp), "&Iso3 * SurfacePoint3: T then T^-1 restores the surface point", d);
+            r.check(sp3_same(&(&ts * sp), &(t * (s * sp))), "&Iso3 * SurfacePoint3: a composition equals the sequence", d);
+        }
+    }
+}
+
+fn w5_planes(r: &mut Report, isos: &[I3]) {
+    let tris = [(p3(0.0, 0.0, 0.0), p3(2.0, 0.0, 0.0), p3(0.0, 3.0, 0.0)), (p3(1.0, 0.5, -2.0), p3(3.0, 2.5, -1.0), p3(-1.0, 2.0, 2.0)), (p3(-2.0, 0.75, 1.0), p3(-2.0, 2.75, 1.0), p3(-2.0, 0.0, 4.0))];
+    let pls = [Plane3::new(u3(0.0, 0.0, 1.0), 0.0), Plane3::new(u3(1.0, 2.0, 2.0), 1.5), Plane3::new(u3(2.0, -1.0, 2.0), -2.0)];
+    for it in isos.iter() { let t = &it.t;
+        for pl in pls.iter() {
+            r.case();
+            let d = || format!("Plane3 {{ normal: {:?}, d: {} }} {}", pl.normal.as_slice(), pl.d, it.name);
+            r.check(plane_same(&pl.inverted_normal().transform_by(t), &pl.transform_by(t).inverted_normal()), "Plane3::inverted_normal commutes with T", d);
+            let m = pl.transform_by(t).inverted_normal();
+            for q in queries3().iter() { r.check(close(m.signed_distance_to_point(&(t * q)), -pl.signed_distance_to_point(q)), "Plane3::inverted_normal: the signed distance changes sign only, in every frame", || format!("{} query {:?}", d(), q.coords.as_slice())); }
+        }
+        for (a, b, c) in tris.iter() {
+            r.case();
+            let d = || format!("plane through {:?}, {:?}, {:?} {}", a.coords.as_slice(), b.coords.as_slice(), c.coords.as_slice(), it.name);
+            let base = Plane3::from((a, b, c));
+            let framed = Plane3::from((&(t * a), &(t * b), &(t * c)));
+            r.check(plane_same(&framed, &base.transform_by(t)), "Plane3 through three points given in another frame is the moved plane", d);
+            let n = base.normal;
+            let framed = Plane3::from((&(t * n), &(t * b)));
+            r.check(plane_same(&framed, &base.transform_by(t)), "Plane3 from a normal and a point given in another frame is the moved plane", d);
+            let sp = SurfacePoint3::new(*c, n);
+            r.check(plane_same(&Plane3::from(&sp.transformed(t)), &base.transform_by(t)), "Plane3 from a surface point given in another frame is the moved plane", d);
+            for q in queries3().iter() { r.check(close(framed.signed_distance_to_point(&(t * q)), base.signed_distance_to_point(q)), "Plane3 built in another frame: the signed point-to-plane distance is invariant", || format!("{} query {:?}", d(), q.coords.as_slice())); }
+        }
+    }
+}
+
+fn w5_lines(r: &mut Report, isos: &[I2]) {
+    use crate::geom2::{intersect_rays, intersection_param, Ray2};
+    let segs = [Segment2 { a: p2(0.0, 0.0), b: p2(2.0, 0.0) }, Segment2 { a: p2(-1.0, 0.5), b: p2(2.0, 4.5) }, Segment2 { a: p2(1.0, 1.0), b: p2(1.0, -2.5) }];
+    for it in isos.iter() { let t = &it.t;
+        for (k, sg) in segs.iter().enumerate() {
+            r.case();
+            let d = || format!("Segment2 {{ a: {:?}, b: {:?} }} {}", sg.a.coords.as_slice(), sg.b.coords.as_slice(), it.name);
+            let m = sg.transform_by(t);
+            for h in [-1.5, 0.25, 2.0] { let (x, y) = (sg.offsetted(h).transform_by(t), m.offsetted(h));
+                r.check(cp2(&x.a, &y.a) && cp2(&x.b, &y.b), "Segment2::offsetted commutes with T", || format!("{} offset {}", d(), h)); }
+            let (x, y) = (sg.reversed().transform_by(t), m.reversed());
+            r.check(cp2(&x.a, &y.a) && cp2(&x.b, &y.b), "Segment2::reversed commutes with T", d);
+            r.check(cv2(&m.orthogonal(), &(t * sg.orthogonal())), "Line2::orthogonal only rotates", d);
+            r.check(Segment2::try_new(t * sg.a, t * sg.b).is_ok(), "Segment2::try_new accepts the end points given in another frame", d);
+            let ray = Ray2::new(sg.a, sg.b - sg.a); let mray = Ray2::new(t * sg.a, t * (sg.b - sg.a));
+            for q in queries2().iter() { let tq = t * q;
+                let dq = || format!("{} query {:?}", d(), q.coords.as_slice());
+                r.check(close(m.projected_parameter(&tq), sg.projected_parameter(q)) && close(mray.projected_parameter(&tq), sg.projected_parameter(q)), "Line2::projected_parameter is invariant", dq);
+                r.check(cp2(&m.projected_point(&tq), &(t * sg.projected_point(q))) && cp2(&mray.projected_point(&tq), &(t * ray.projected_point(q))), "Line2::projected_point commutes with T", dq);
+                r.check(close(dist(&m.projected_point(&tq), &tq), dist(&sg.projected_point(q), q)), "point-to-line distance is invariant", dq);
+            }
+            for f in [0.0, 0.5, 1.5] { r.check(cp2(&mray.at(f), &(t * ray.at(f))) && cp2(&mray.origin(), &(t * ray.origin())) && cv2(&mray.dir(), &(t * ray.dir())), "Ray2 (Line2): origin and points move, the direction only rotates", || format!("{} parameter {}", d(), f)); }
+            // intersection parameters of two (non-parallel) lines are scalar results
+            let other = &segs[(k + 1) % segs.len()]; let mo = other.transform_by(t);
+            let a = intersection_param(&sg.a, &sg.dir(), &other.a, &other.dir()); let b = intersection_param(&m.a, &m.dir(), &mo.a, &mo.dir());
+            let c = intersect_rays(&mray, &Ray2::new(mo.a, mo.dir()));
+            let same = |x: &Option<(f64, f64)>, y: &Option<(f64, f64)>| match (x, y) { (Some(x), Some(y)) => close(x.0, y.0) && close(x.1, y.1), (None, None) => true, _ => false };
+            r.check(a.is_some() && same(&a, &b) && same(&a, &c), "intersection_param / intersect_rays: the intersection parameters of two lines are invariant", || format!("{} with Segment2 {{ a: {:?}, b: {:?} }}: {:?} vs {:?} / {:?}", d(), other.a.coords.as_slice(), other.b.coords.as_slice(), a, b, c));
+            // exactly parallel lines (a translated copy): no intersection in either frame for the exactly representable quarter turns; elsewhere None or a far-away parameter is a rounding matter and not judged
+        }
+    }
+}
+
+fn w5_points(r: &mut Report, isos3: &[I3], isos2: &[I2]) {
+    use crate::common::points::{linear_interpolation_error, max_point_in_direction, mean_point, mean_point_weighted};
+    for (i, it) in isos3.iter().enumerate() { let t = &it.t; let s = &isos3[partner(i, isos3.len())].t; let ti = t.inverse(); let ts = t * s;
+        for n in [0usize, 1, 2, 33, 65, 1001] {
+            r.case();
+            let pts = gen3(n);
+            let d = || format!("{} points (k -> ((7k mod 16)/4 - 2, (5k mod 11)/2 - 2.5, (3k mod 13)/8 + (k div 13)/16)) {}", n, it.name);
+            let a = transform_points(&pts, t); let b = (&pts[..]).transform_by(t); let c = (&pts).transform_by(t);
+            r.check(a.len() == n && b.len() == n && c.len() == n, "transform_points / TransformBy keep the number of points", d);
+            let bad = (0..n.min(a.len()).min(b.len()).min(c.len())).find(|&k| !(cp3(&a[k], &(t * pts[k])) && cp3(&b[k], &(t * pts[k])) && cp3(&c[k], &(t * pts[k]))));
+            r.check(bad.is_none(), "transform_points / TransformBy move point k by T", || format!("{} point {:?}", d(), bad));
+            let back = transform_points(&a, &ti); let back2 = (&b).transform_by(&ti);
+            r.check(back.len() == n && back2.len() == n && (0..n.min(back.len()).min(back2.len())).all(|k| cp3(&back[k], &pts[k]) && cp3(&back2[k], &pts[k])), "transform_points / TransformBy: T then T^-1 restores the points", d);
+            let seq = transform_points(&transform_points(&pts, s), t); let comp = transform_points(&pts, &ts);
+            let seq2 = (&(&pts).transform_by(s)).transform_by(t); let comp2 = (&pts[..]).transform_by(&ts);
+            r.check(seq.len() == n && comp.len() == n && seq2.len() == n && comp2.len() == n && (0..n.min(seq.len()).min(comp.len()).min(seq2.len()).min(comp2.len())).all(|k| cp3(&seq[k], &comp[k]) && cp3(&seq2[k], &comp2[k])), "transform_points / TransformBy: a composition equals the sequence", d);
+            if n >= 2 && n <= 65 {
+                let mv = &a;
+                r.check(cp3(&mean_point(mv), &(t * mean_point(&pts))), "mean_point commutes with T", d);
+                let w: Vec<f64> = (0..n).map(|k| 0.5 + (k % 4) as f64 * 0.25).collect();
+                r.check(cp3(&mean_point_weighted(mv, &w), &(t * mean_point_weighted(&pts, &w))), "mean_point_weighted commutes with T", d);
+                r.check(close(dist(&mv[0], &mv[n - 1]), dist(&pts[0], &pts[n - 1])) && cp3(&mid_point(&mv[0], &mv[n - 1]), &(t * mid_point(&pts[0], &pts[n - 1]))), "dist is invariant, mid_point commutes with T (3D)", d);
+                r.check(close(linear_interpolation_error(&mv[0], &mv[1], &mv[n - 1]), linear_interpolation_error(&pts[0], &pts[1], &pts[n - 1])), "linear_interpolation_error (distance of a point from the line through two others) is invariant", d);
+                for v in [Vector3::new(1.0, 0.375, 0.21875), Vector3::new(-0.40625, 1.0, -0.3125), Vector3::new(0.15625, -0.28125, -1.0)] {
+                    // judged only when the extreme point is unique with a margin
+                    let mut pr: Vec<f64> = pts.iter().map(|p| p.coords.dot(&v)).collect(); pr.sort_by(|x, y| y.partial_cmp(x).unwrap());
+                    if pr[0] - pr[1] < 1e-3 { continue; }
+                    let (x, y) = (max_point_in_direction(&pts, &v), max_point_in_direction(mv, &(t * v)));
+                    r.check(match (&x, &y) { (Some(x), Some(y)) => x.0 == y.0 && cp3(&y.1, &(t * x.1)), _ => false }, "max_point_in_direction: the extreme point commutes with T (the direction only rotates)", || format!("{} direction {:?}: {:?} vs {:?}", d(), v.as_slice(), x.map(|e| e.0), y.map(|e| e.0)));
+                }
+            }
+        }
+    }
+    for (i, it) in isos2.iter().enumerate() { let t = &it.t; let s = &isos2[partner(i, isos2.len())].t; let ti = t.inverse(); let ts = t * s;
+        for n in [0usize, 1, 2, 33, 1001] {
+            r.case();
+            let pts = gen2(n);
+            let d = || format!("{} 2D points (k -> ((7k mod 16)/4 - 2 + (k div 16)/32, (5k mod 11)/2 - 2.5)) {}", n, it.name);
+            let a = transform_points(&pts, t);
+            let bad = (0..n.min(a.len())).find(|&k| !cp2(&a[k], &(t * pts[k])));
+            r.check(a.len() == n && bad.is_none(), "transform_points (2D) moves point k by T and keeps the number of points", || format!("{} point {:?}", d(), bad));
+            let back = transform_points(&a, &ti);
+            r.check(back.len() == n && (0..n.min(back.len())).all(|k| cp2(&back[k], &pts[k])), "transform_points (2D): T then T^-1 restores the points", d);
+            let seq = transform_points(&transform_points(&pts, s), t); let comp = transform_points(&pts, &ts);
+            r.check(seq.len() == n && comp.len() == n && (0..n.min(seq.len()).min(comp.len())).all(|k| cp2(&seq[k], &comp[k])), "transform_points (2D): a composition equals the sequence", d);
+            if n >= 2 && n <= 33 {
+                r.check(cp2(&mean_point(&a), &(t * mean_point(&pts))), "mean_point commutes with T", d);
+                let w: Vec<f64> = (0..n).map(|k| 0.5 + (k % 4) as f64 * 0.25).collect();
+                r.check(cp2(&mean_point_weighted(&a, &w), &(t * mean_point_weighted(&pts, &w))), "mean_point_weighted commutes with T", d);
+                r.check(close(linear_interpolation_error(&a[0], &a[1], &a[n - 1]), linear_interpolation_error(&pts[0], &pts[1], &pts[n - 1])), "linear_interpolation_error (distance of a point from the line through two others) is invariant", d);
+            }
+        }
+    }
+}
+
+fn cloud_is(pc: &PointCloud, pts: &[Point3], ns: Option<&[UnitVec3]>, cs: Option<&[[u8; 3]]>, t: &Iso3) -> bool {
+    pc.points().len() == pts.len() && pc.len() == pts.len() && pc.is_empty() == pts.is_empty() && pc.points().iter().zip(pts.iter()).all(|(m, p)| cp3(m, &(t * p)))
+        && match (pc.normals(), ns) { (None, None) => true, (Some(a), Some(b)) => a.len() == b.len() && a.iter().zip(b.iter()).all(|(m, n)| cv3(&m.into_inner(), &(t * n.into_inner()))), _ => false }
+        && match (pc.colors(), cs) { (None, None) => true, (Some(a), Some(b)) => a == b, _ => false }
+}
+fn w5_clouds(r: &mut Report, isos: &[I3]) {
+    let id = Iso3::identity();
+    for (i, it) in isos.iter().enumerate() { let t = &it.t; let s = &isos[partner(i, isos.len())].t; let ti = t.inverse();
+        for n in [0usize, 1, 2, 33, 65, 1001] { for (has_n, has_c) in [(true, true), (false, false), (true, false)] {
+            r.case();
+            let (pts, ns, cs) = (gen3(n), gen_n3(n), gen_c(n));
+            let d = || format!("PointCloud of {} points (normals={}, colors={}) {}", n, has_n, has_c, it.name);
+            let mk = || PointCloud::try_new(pts.clone(), if has_n { Some(ns.clone()) } else { None }, if has_c { Some(cs.clone()) } else { None }).unwrap();
+            let (on, oc) = (if has_n { Some(&ns[..]) } else { None }, if has_c { Some(&cs[..]) } else { None });
+            let mut pc = mk(); pc.transform(t);
+            r.check(cloud_is(&pc, &pts, on, oc, t), "PointCloud::transform: every point moves by T, normals only rotate, colours and counts are kept", d);
+            // bounding box of the moved cloud: the box of the moved points
+            if n > 0 { let bb = pc.aabb(); let mv: Vec<Point3> = pts.iter().map(|p| t * p).collect();
+                let lo = mv.iter().fold(mv[0], |a, p| a.inf(p)); let hi = mv.iter().fold(mv[0], |a, p| a.sup(p));
+                r.check(cp3(&bb.mins, &lo) && cp3(&bb.maxs, &hi), "PointCloud::aabb of the moved cloud is the box of the moved points", d); }
+            let mut back = pc.clone(); back.transform(&ti);
+            r.check(cloud_is(&back, &pts, on, oc, &id), "PointCloud: T then T^-1 restores points and normals", d);
+            let mut seq = mk(); seq.transform(s); seq.transform(t); let mut comp = mk(); comp.transform(&(t * s));
+            r.check(seq.len() == comp.len() && seq.points().iter().zip(comp.points().iter()).all(|(x, y)| cp3(x, y)) && match (seq.normals(), comp.normals()) { (None, None) => true, (Some(a), Some(b)) => a.len() == b.len() && a.iter().zip(b.iter()).all(|(x, y)| cv3(x, y)), _ => false }, "PointCloud: transforming by a composition equals transforming in sequence", d);
+            if n == 0 || n > 65 { continue; }
+            // merge: moving the merged cloud == merging the moved clouds; the same for append, sub-selection and the conversions
+            let k = n / 2 + 1; let k = k.min(n);
+            let part = |a: usize, b: usize| PointCloud::try_new(pts[a..b].to_vec(), if has_n { Some(ns[a..b].to_vec()) } else { None }, if has_c { Some(cs[a..b].to_vec()) } else { None }).unwrap();
+            let mut m1 = part(0, k); let ok1 = m1.merge(part(k, n)).is_ok(); m1.transform(t);
+            let mut m2 = part(0, k); m2.transform(t); let mut m2b = part(k, n); m2b.transform(t); let ok2 = m2.merge(m2b).is_ok();
+            r.check(ok1 && ok2 && cloud_is(&m1, &pts, on, oc, t) && cloud_is(&m2, &pts, on, oc, t), "PointCloud::merge commutes with T (merge then move == move both then merge: points move, normals only rotate, order and colours kept)", d);
+            let mut a1 = PointCloud::empty(has_n, has_c); let mut a2 = PointCloud::empty(has_n, has_c); a2.transform(t);
+            let mut ok = a2.is_empty();
+            for j in 0..n {
+                ok &= a1.append(pts[j], if has_n { Some(ns[j]) } else { None }, if has_c { Some(cs[j]) } else { None }).is_ok();
+                ok &= a2.append(t * pts[j], if has_n { Some(t * ns[j]) } else { None }, if has_c { Some(cs[j]) } else { None }).is_ok();
+            }
+            a1.transform(t);
+            r.check(ok && cloud_is(&a1, &pts, on, oc, t) && cloud_is(&a2, &pts, on, oc, t), "PointCloud::empty / append commute with T (append then move == move then append the moved points)", d);
+            let idx: Vec<usize> = (0..n).rev().step_by(2).collect();
+            let sel = pc.create_from_indices(&idx); let mut sel0 = mk().create_from_indices(&idx); sel0.transform(t);
+            r.check(sel.len() == idx.len() && sel.points().iter().zip(sel0.points().iter()).all(|(x, y)| cp3(x, y)) && sel.normals().is_some() == has_n && sel.normals().map_or(true, |a| a.iter().zip(sel0.normals().unwrap().iter()).all(|(x, y)| cv3(x, y))) && sel.colors() == sel0.colors(), "PointCloud::create_from_indices commutes with T", d);
+            if has_n && !has_c {
+                let sps: Vec<SurfacePoint3> = pts.iter().zip(ns.iter()).map(|(p, n)| SurfacePoint3::new(*p, *n)).collect();
+                let moved: Vec<SurfacePoint3> = sps.iter().map(|sp| t * sp).collect();
+                let c1 = PointCloud::from(&moved[..]);
+                let mp: Vec<Point3> = pts.iter().map(|p| t * p).collect(); let mn: Vec<UnitVec3> = ns.iter().map(|n| t * n).collect();
+                let c2 = PointCloud::try_from((&mp[..], &mn[..]));
+                r.check(cloud_is(&c1, &pts, on, None, t) && c2.as_ref().map_or(false, |c| cloud_is(c, &pts, on, None, t)), "PointCloud built from surface points / (points, normals) given in another frame is the moved cloud", d);
+            }
+            if !has_n && !has_c {
+                let mp: Vec<Point3> = pts.iter().map(|p| t * p).collect();
+                r.check(cloud_is(&PointCloud::from(&mp[..]), &pts, None, None, t), "PointCloud built from points given in another frame is the moved cloud", d);
+            }
+        } }
+    }
+}
+
+fn w5_distances(r: &mut Report, isos3: &[I3], isos2: &[I2]) {
+    let ab3 = [(p3(0.5, 1.0, -2.0), p3(2.0, 3.0, 0.25)), (p3(-1.0, 0.25, 4.0), p3(4.0, 1.0, 4.0))];
+    let dirs3 = [None, Some(u3(1.0, 0.0, 0.0)), Some(u3(1.0, 2.0, 2.0)), Some(u3(-3.0, -4.0, 0.0))];
+    for it in isos3.iter() { let t = &it.t;
+        for (a, b) in ab3.iter() { for dir in dirs3.iter() {
+            r.case();
+            let d = || format!("Distance3::new({:?}, {:?}, {:?}) {}", a.coords.as_slice(), b.coords.as_slice(), dir.map(|u| u.as_slice().to_vec()), it.name);
+            let base = Distance3::new(*a, *b, *dir); let m = Distance3::new(t * a, t * b, dir.map(|u| t * u));
+            r.check(close(m.value(), base.value()), "Distance3 given in another frame: the measured value is invariant", d);
+            r.check(cv3(&m.direction.into_inner(), &(t * base.direction.into_inner())) && cp3(&m.a, &(t * base.a)) && cp3(&m.b, &(t * base.b)), "Distance3 given in another frame: end points move, the direction only rotates", d);
+            let (c, c0) = (m.center(), base.center());
+            r.check(cp3(&c.point, &(t * c0.point)) && cv3(&c.normal.into_inner(), &(t * c0.normal.into_inner())), "Distance3::center commutes with T", d);
+            let (rv, rv0) = (m.reversed(), base.reversed());
+            r.check(close(rv.value(), rv0.value()) && close(rv0.value(), base.value()) && cv3(&rv.direction.into_inner(), &(t * rv0.direction.into_inner())) && cp3(&rv.a, &(t * rv0.a)), "Distance3::reversed commutes with T and keeps the value", d);
+        } }
+    }
+    let ab2 = [(p2(0.5, 1.0), p2(2.0, 3.0)), (p2(-1.0, 0.25), p2(4.0, 1.0))];
+    let dirs2 = [None, Some(u2(1.0, 0.0)), Some(u2(3.0, 4.0)), Some(u2(-1.5, -2.0))];
+    for it in isos2.iter() { let t = &it.t;
+        for (a, b) in ab2.iter() { for dir in dirs2.iter() {
+            r.case();
+            let d = || format!("Distance2::new({:?}, {:?}, {:?}) {}", a.coords.as_slice(), b.coords.as_slice(), dir.map(|u| u.as_slice().to_vec()), it.name);
+            let base = Distance2::new(*a, *b, *dir); let m = Distance2::new(t * a, t * b, dir.map(|u| t * u));
+            r.check(close(m.value(), base.value()), "Distance2 given in another frame: the measured value is invariant", d);
+            r.check(cv2(&m.direction.into_inner(), &(t * base.direction.into_inner())), "Distance2 given in another frame: the direction only rotates", d);
+            let (c, c0) = (m.center(), base.center());
+            r.check(cp2(&c.point, &(t * c0.point)) && cv2(&c.normal.into_inner(), &(t * c0.normal.into_inner())), "Distance2::center commutes with T", d);
+            // lifting commutes with an in-plane motion: to_3d(L) of the base == to_3d(identity) of the moved
+            let l = lift2(t); let (x, y) = (base.to_3d(&l), m.to_3d(&Iso3::identity()));
+            r.check(cp3(&x.a, &y.a) && cp3(&x.b, &y.b) && cv3(&x.direction, &y.direction) && close(x.value(), y.value()), "Distance2::to_3d commutes with an in-plane motion", d);
+        } }
+    }
+}
+
+fn bbox2(pts: &[Point2]) -> (Point2, Point2) { (pts.iter().fold(pts[0], |a, p| a.inf(p)), pts.iter().fold(pts[0], |a, p| a.sup(p))) }
+fn w5_curve2_cases() -> Vec<C2Case> {
+    let zig = |n: usize| -> Vec<Point2> { (0..n).map(|k| p2(k as f64 * 0.25, ((k * k) % 17) as f64 * 0.125 + if k % 2 == 0 { 0.0 } else { 1.0 })).collect() };
+    vec![
+        C2Case { name: "closed within the tolerance (ends 0.05 apart, tol 0.1)", pts: vec![p2(0.0, 0.0), p2(3.0, 0.0), p2(3.0, 2.0), p2(0.0, 2.0), p2(0.03, 0.04)], tol: 0.1, fc: false },
+        C2Case { name: "hairpin (two legs 0.25 apart)", pts: vec![p2(0.0, 0.0), p2(6.0, 0.0), p2(6.25, 0.125), p2(6.0, 0.25), p2(0.5, 0.25)], tol: 1e-6, fc: false },
+        C2Case { name: "thin closed rectangle 8 x 0.5", pts: vec![p2(0.0, 0.0), p2(8.0, 0.0), p2(8.0, 0.5), p2(0.0, 0.5), p2(0.0, 0.0)], tol: 1e-6, fc: false },
+        C2Case { name: "open polyline numbered backwards", pts: vec![p2(3.0, 1.25), p2(1.5, 1.0), p2(1.0, 0.0), p2(0.0, 0.0)], tol: 1e-6, fc: false },
+        C2Case { name: "force-closed scalene quadrilateral, tol 0.01", pts: vec![p2(0.0, 0.0), p2(4.0, 0.5), p2(3.0, 2.5), p2(-0.5, 1.5)], tol: 0.01, fc: true },
+        C2Case { name: "zigzag of 100 vertices", pts: zig(100), tol: 1e-6, fc: false },
+        C2Case { name: "zigzag of 1500 vertices", pts: zig(1500), tol: 1e-6, fc: false },
+    ]
+}
+fn w5_curves2(r: &mut Report, isos: &[I2], with_long: bool) {
+    use crate::geom2::Ray2;
+    let fr = [0.0625, 0.3125, 0.59375, 0.9375];
+    for cs in w5_curve2_cases().iter() {
+        if cs.pts.len() > 1000 && !with_long { continue; }
+        let c = Curve2::from_points(&cs.pts, cs.tol, cs.fc).unwrap();
+        for (i, it) in isos.iter().enumerate() { let t = &it.t; let s = &isos[partner(i, isos.len())].t;
+            r.case();
+            let d = || format!("Curve2 [{}] from {} points starting {:?}, tol={}, force_closed={} {}", cs.name, cs.pts.len(), cs.pts.iter().take(5).map(|p| (p.x, p.y)).collect::<Vec<_>>(), cs.tol, cs.fc, it.name);
+            let m = c.transformed_by(t);
+            r.check(m.count() == c.count(), "Curve2::transformed_by keeps the vertex count", d);
+            r.check(m.count() == c.count() && m.points().iter().zip(c.points().iter()).all(|(a, b)| cp2(a, &(t * b))), "Curve2::transformed_by moves every vertex by T", d);
+            r.check(close(m.length(), c.length()) && m.lengths().len() == c.lengths().len() && m.lengths().iter().zip(c.lengths().iter()).all(|(a, b)| close(*a, *b)), "Curve2: cumulative vertex lengths are invariant under transformed_by", d);
+            r.check(m.is_closed() == c.is_closed() && m.tol() == c.tol(), "Curve2::transformed_by keeps closedness and tolerance", d);
+            let mv: Vec<Point2> = c.points().iter().map(|p| t * p).collect(); let (lo, hi) = bbox2(&mv);
+            r.check(cp2(&m.aabb().mins, &lo) && cp2(&m.aabb().maxs, &hi), "Curve2::transformed_by: the bounding box of the moved curve is the box of the moved vertices", d);
+            let moved: Vec<Point2> = cs.pts.iter().map(|p| t * p).collect();
+            match Curve2::from_points(&moved, cs.tol, cs.fc) {
+                Ok(f) => r.check(f.count() == c.count() && close(f.length(), c.length()) && f.is_closed() == c.is_closed(), "Curve2 built from the points given in another frame has the same vertex count, length and closedness", d),
+                Err(_) => r.check(false, "Curve2 can be built from the points given in another frame", d),
+            }
+            for f in fr {
+                let df = || format!("{} fraction {}", d(), f);
+                match (c.at_fraction(f), m.at_fraction(f)) {
+                    (Some(a), Some(b)) => {
+                        r.check(cp2(&b.point(), &(t * a.point())) && close(b.length_along(), a.length_along()), "Curve2: the point at a fraction of the length commutes with T", df);
+                        if a.fraction() > 1e-6 && a.fraction() < 1.0 - 1e-6 {
+                            r.check(b.index() == a.index() && cv2(&b.direction().into_inner(), &(t * a.direction().into_inner())) && cv2(&b.normal().into_inner(), &(t * a.normal().into_inner())), "Curve2: direction and normal at a station only rotate", df);
+                            r.check(sp2_same(&b.surface_point(), &a.surface_point().transformed(t)) && sp2_same(&b.direction_point(), &a.direction_point().transformed(t)), "Curve2: the surface point / direction point of a station commute with T", df);
+                        }
+                    }
+                    _ => r.check(false, "Curve2: a station exists at a fraction in both frames or in neither", df),
+                }
+            }
+            for v in [Vector2::new(1.0, 0.34375), Vector2::new(-0.28125, 1.0), Vector2::new(-1.0, -0.40625)] {
+                let mut pr: Vec<f64> = c.points().iter().map(|p| p.coords.dot(&v)).collect(); pr.sort_by(|x, y| y.partial_cmp(x).unwrap());
+                if pr[0] - pr[1] < 1e-3 { continue; }
+                let (x, y) = (c.max_point_in_direction(&v), m.max_point_in_direction(&(t * v)));
+                r.check(match (&x, &y) { (Some(x), Some(y)) => x.0 == y.0 && cp2(&y.1, &(t * x.1)), _ => false }, "Curve2::max_point_in_direction commutes with T (the direction only rotates)", || format!("{} direction {:?}", d(), v.as_slice()));
+                let sp = SurfacePoint2::new(p2(0.5, -0.25), UnitVec2::new_normalize(v));
+                r.check(close(m.max_dist_in_direction(&sp.transformed(t)), c.max_dist_in_direction(&sp)), "Curve2::max_dist_in_direction is invariant", || format!("{} direction {:?}", d(), v.as_slice()));
+            }
+            if cs.pts.len() <= 5 {
+                // rays that cross edges away from every vertex (judged only when every hit is at least 1e-3 of the edge length from the edge ends in the reference frame)
+                for (o, dv) in [(p2(-1.0, -0.71875), Vector2::new(1.0, 0.53125)), (p2(7.0, 3.0), Vector2::new(-1.0, -0.59375)), (p2(1.28125, -3.0), Vector2::new(0.0625, 1.0))] {
+                    let ray = Ray2::new(o, dv); let mray = Ray2::new(t * o, t * dv);
+                    let mut a = c.ray_intersections(&ray); let mut b = m.ray_intersections(&mray);
+                    a.sort_by(|x, y| x.0.partial_cmp(&y.0).unwrap()); b.sort_by(|x, y| x.0.partial_cmp(&y.0).unwrap());
+                    let safe = a.iter().all(|(tt, e)| { let p = ray.point_at(*tt); let (v0, v1) = (c.vtx(*e), c.vtx(*e + 1)); let el = dist(&v0, &v1); dist(&p, &v0) > 1e-3 * el && dist(&p, &v1) > 1e-3 * el }) && a.windows(2).all(|w| (w[1].0 - w[0].0).abs() > 1e-6);
+                    if !safe { continue; }
+                    r.check(a.len() == b.len() && a.iter().zip(b.iter()).all(|(x, y)| x.1 == y.1 && close(x.0, y.0)), "Curve2::ray_intersections: ray parameters and edges are invariant when curve and ray move together", || format!("{} ray {:?} + s * {:?}: {:?} vs {:?}", d(), o.coords.as_slice(), dv.as_slice(), a, b));
+                }
+            }
+            let back = m.transformed_by(&t.inverse());
+            r.check(back.count() == c.count() && back.points().iter().zip(c.points().iter()).all(|(a, b)| cp2(a, b)) && close(back.length(), c.length()) && back.is_closed() == c.is_closed(), "Curve2: T then T^-1 restores the curve", d);
+            let c1 = c.transformed_by(&(t * s)); let c2 = c.transformed_by(s).transformed_by(t);
+            r.check(c1.count() == c2.count() && c1.points().iter().zip(c2.points().iter()).all(|(a, b)| cp2(a, b)) && c1.is_closed() == c2.is_closed(), "Curve2: transforming by a composition equals transforming in sequence", d);
+        }
+    }
+}
+fn w5_curve3_cases() -> Vec<C3Case> {
+    let zig = |n: usize| -> Vec<Point3> { (0..n).map(|k| p3(k as f64 * 0.25, ((k * k) % 17) as f64 * 0.125 + if k % 2 == 0 { 0.0 } else { 1.0 }, ((k * 3) % 7) as f64 * 0.5)).collect() };
+    vec![
+        C3Case { name: "closed within the tolerance (ends 0.05 apart, tol 0.1)", pts: vec![p3(0.0, 0.0, 0.0), p3(3.0, 0.0, 1.0), p3(3.0, 2.0, 1.0), p3(0.0, 2.0, 0.0), p3(0.03, 0.04, 0.0)], tol: 0.1 },
+        C3Case { name: "hairpin (two legs 0.25 apart)", pts: vec![p3(0.0, 0.0, 0.0), p3(6.0, 0.0, 2.0), p3(6.25, 0.125, 2.0), p3(6.0, 0.25, 2.0), p3(0.5, 0.25, 0.0)], tol: 1e-6 },
+        C3Case { name: "open polyline numbered backwards", pts: vec![p3(3.0, 1.25, -1.0), p3(1.5, 1.0, 0.5), p3(1.0, 0.0, 0.5), p3(0.0, 0.0, 0.0)], tol: 1e-6 },
+        C3Case { name: "zigzag of 100 vertices", pts: zig(100), tol: 1e-6 },
+        C3Case { name: "zigzag of 1500 vertices", pts: zig(1500), tol: 1e-6 },
+    ]
+}
+fn w5_curves3(r: &mut Report, isos: &[I3], with_long: bool) {
+    let fr = [0.0625, 0.3125, 0.59375, 0.9375];
+    for cs in w5_curve3_cases().iter() {
+        if cs.pts.len() > 1000 && !with_long { continue; }
+        let c = Curve3::from_points(&cs.pts, cs.tol).unwrap();
+        for (i, it) in isos.iter().enumerate() { let t = &it.t; let s = &isos[partner(i, isos.len())].t;
+            r.case();
+            let d = || format!("Curve3 [{}] from {} points starting {:?}, tol={} {}", cs.name, cs.pts.len(), cs.pts.iter().take(5).map(|p| (p.x, p.y, p.z)).collect::<Vec<_>>(), cs.tol, it.name);
+            let m = c.transformed_by(t);
+            r.check(m.count() == c.count(), "Curve3::transformed_by keeps the vertex count", d);
+            r.check(m.count() == c.count() && m.points().iter().zip(c.points().iter()).all(|(a, b)| cp3(a, &(t * b))), "Curve3::transformed_by moves every vertex by T", d);
+            r.check(close(m.length(), c.length()) && m.lengths().len() == c.lengths().len() && m.lengths().iter().zip(c.lengths().iter()).all(|(a, b)| close(*a, *b)), "Curve3: cumulative vertex lengths are invariant under transformed_by", d);
+            r.check(m.tol() == c.tol(), "Curve3::transformed_by keeps the tolerance", d);
+            let moved: Vec<Point3> = cs.pts.iter().map(|p| t * p).collect();
+            match Curve3::from_points(&moved, cs.tol) {
+                Ok(f) => r.check(f.count() == c.count() && close(f.length(), c.length()), "Curve3 built from the points given in another frame has the same vertex count and length", d),
+                Err(_) => r.check(false, "Curve3 can be built from the points given in another frame", d),
+            }
+            for f in fr {
+                let df = || format!("{} fraction {}", d(), f);
+                match (c.at_fraction(f), m.at_fraction(f)) {
+                    (Some(a), Some(b)) => {
+                        r.check(cp3(&b.point(), &(t * a.point())) && close(b.length_along(), a.length_along()), "Curve3: the point at a fraction of the length commutes with T", df);
+                        if a.fraction() > 1e-6 && a.fraction() < 1.0 - 1e-6 {
+                            r.check(b.index() == a.index() && sp3_same(&b.direction_point(), &a.direction_point().transformed(t)), "Curve3: the direction point of a station commutes with T (the direction only rotates)", df);
+                            r.check(plane_same(&b.plane(), &a.plane().transform_by(t)), "Curve3: the plane of a station commutes with T", df);
+                        }
+                    }
+                    _ => r.check(false, "Curve3: a station exists at a fraction in both frames or in neither", df),
+                }
+            }
+            let back = m.transformed_by(&t.inverse());
+            r.check(back.count() == c.count() && back.points().iter().zip(c.points().iter()).all(|(a, b)| cp3(a, b)) && close(back.length(), c.length()), "Curve3: T then T^-1 restores the curve", d);
+            let c1 = c.transformed_by(&(t * s)); let c2 = c.transformed_by(s).transformed_by(t);
+            r.check(c1.count() == c2.count() && c1.points().iter().zip(c2.points().iter()).all(|(a, b)| cp3(a, b)), "Curve3: transforming by a composition equals transforming in sequence", d);
+        }
+    }
+}
+
+fn w5_meshes(r: &mut Report, isos: &[I3], with_large: bool) {
+    let mut meshes: Vec<(String, Mesh, bool)> = vec![
+        ("Mesh::create_box(2, 3, 4, is_solid=false)".to_string(), Mesh::create_box(2.0, 3.0, 4.0, false), true),
+        ("Mesh::create_box(16, 1, 0.5, is_solid=true)".to_string(), Mesh::create_box(16.0, 1.0, 0.5, true), true),
+        ("Mesh::create_cylinder(1.5, 4, 24) (48 faces)".to_string(), Mesh::create_cylinder(1.5, 4.0, 24), false),
+    ];
+    if with_large {
+        meshes.push(("Mesh::create_cylinder(1.5, 4, 520) (1040 faces)".to_string(), Mesh::create_cylinder(1.5, 4.0, 520), false));
+        meshes.push(("Mesh::create_cylinder(1.5, 4, 2100) (4200 faces)".to_string(), Mesh::create_cylinder(1.5, 4.0, 2100), false));
+    }
+    let extra = shifted_box(1.0, 1.0, 1.0, Vector3::new(5.0, -2.0, 0.5), false);
+    for (mname, base, is_box) in meshes.iter() {
+        let fnorm = base.get_face_normals().unwrap(); let vnorm = base.get_vertex_normals();
+        let nf = base.faces().len();
+        for (i, it) in isos.iter().enumerate() { let t = &it.t; let s = &isos[partner(i, isos.len())].t;
+            mesh_moves(r, mname, base, it, s);
+            let d = || format!("{} {}", mname, it.name);
+            let mut moved = base.clone(); moved.transform(t);
+            let mv: Vec<Point3> = base.vertices().iter().map(|p| t * p).collect();
+            let lo = mv.iter().fold(mv[0], |a, p| a.inf(p)); let hi = mv.iter().fold(mv[0], |a, p| a.sup(p));
+            r.check(cp3(&moved.aabb().mins, &lo) && cp3(&moved.aabb().maxs, &hi), "Mesh::transform: the bounding box of the moved mesh is the box of the moved vertices", d);
+            let mf = moved.get_face_normals();
+            r.check(mf.as_ref().map_or(false, |m| m.len() == nf && m.iter().zip(fnorm.iter()).all(|(a, b)| cv3(&a.into_inner(), &(t * b.into_inner())))), "Mesh::get_face_normals of the moved mesh: face normals only rotate", d);
+            let mvn = moved.get_vertex_normals();
+            r.check(mvn.len() == vnorm.len() && mvn.iter().zip(vnorm.iter()).all(|(a, b)| cv3(a, &(t * b))), "Mesh::get_vertex_normals of the moved mesh: vertex normals only rotate", d);
+            // append commutes with T
+            let mut a1 = base.clone(); let ok1 = a1.append(&extra).is_ok(); a1.transform(t);
+            let mut e2 = extra.clone(); e2.transform(t); let mut a2 = moved.clone(); let ok2 = a2.append(&e2).is_ok();
+            r.check(ok1 && ok2 && a1.vertices().len() == a2.vertices().len() && a1.vertices().len() == base.vertices().len() + extra.vertices().len() && a1.vertices().iter().zip(a2.vertices().iter()).all(|(x, y)| cp3(x, y)) && a1.faces() == a2.faces() && a1.faces().len() == nf + extra.faces().len(), "Mesh::append commutes with T (append then move == move both then append: vertices move, faces kept)", d);
+            // closest points: queries 0.25 outside the centroid of a few faces (convex shapes: the closest point is that centroid)
+            let c = base.vertices().iter().fold(Vector3::zeros(), |a, p| a + p.coords) / base.vertices().len() as f64;
+            for f in [0usize, nf / 3, nf / 2 + 1, nf - 1] {
+                let tri = base.faces()[f]; let (v0, v1, v2) = (base.vertices()[tri[0] as usize], base.vertices()[tri[1] as usize], base.vertices()[tri[2] as usize]);
+                let g = Point3::from((v0.coords + v1.coords + v2.coords) / 3.0);
+                let n = fnorm[f].into_inner(); let out = if n.dot(&(g.coords - c)) >= 0.0 { n } else { -n };
+                let q = g + out * 0.25; let tq = t * q;
+                let dq = || format!("{} query {:?} = centroid of face {} + 0.25 * outward normal", d(), q.coords.as_slice(), f);
+                let cp = base.point_closest_to(&q);
+                r.check(cp3(&cp, &g), "Mesh::point_closest_to: 0.25 outside a face centroid of a convex mesh the closest point is that centroid", dq);
+                r.check(cp3(&moved.point_closest_to(&tq), &(t * cp)) && close(dist(&moved.point_closest_to(&tq), &tq), 0.25), "Mesh::point_closest_to commutes with T", dq);
+                let (a, b) = (base.surf_closest_to(&q), moved.surf_closest_to(&tq));
+                r.check(cp3(&b.point, &(t * a.point)) && cv3(&b.normal.into_inner(), &(t * a.normal.into_inner())), "Mesh::surf_closest_to commutes with T (point moves, normal only rotates)", dq);
+                let (a, b) = (base.measure_point_deviation(&q, DistMode::ToPlane), moved.measure_point_deviation(&tq, DistMode::ToPlane));
+                r.check(close(b.value(), a.value()) && close(b.value().abs(), 0.25), "Mesh::measure_point_deviation: the signed deviation is invariant", dq);
+                let ti = t.inverse();
+                let (a, b, e) = (base.project_with_tol(&q, 0.5, 0.5, None), base.project_with_tol(&(ti * q), 0.5, 0.5, Some(t)), moved.project_with_tol(&tq, 0.5, 0.5, None));
+                r.check(match (&a, &b, &e) { (Some(a), Some(b), Some(e)) => a.1 == b.1 && a.1 == e.1 && a.1 as usize == f && cp3(&a.0.point, &b.0.point) && cp3(&e.0.point, &(t * a.0.point)), _ => false }, "Mesh::project_with_tol: a query given in another frame (Some(T)) projects to the same point and face", dq);
+            }
+            if *is_box {
+                let (h0, h1) = (base.convex_hull(), moved.convex_hull());
+                let each = h0.vertices().iter().all(|p| h1.vertices().iter().any(|x| cp3(x, &(t * p))));
+                r.check(h0.vertices().len() == h1.vertices().len() && each && h0.faces().len() == h1.faces().len(), "Mesh::convex_hull commutes with T (the hull of the moved mesh has the moved hull vertices)", d);
+            }
+        }
+    }
+    // a UV-mapped mesh keeps its UV map when it is moved
+    for it in isos.iter() { let mut m = roof(true); m.transform(&it.t); r.case();
+        r.check(m.uv().is_some(), "Mesh::transform keeps the UV mapping", || format!("UV-mapped open roof mesh {}", it.name)); }
+}
+
+/// line_surface_deviations with Some(interval): the same points are selected in every frame (station lengths are invariant)
+fn w5_line_deviation_interval(r: &mut Report, isos: &[I2]) {
+    use crate::common::Interval;
+    use crate::metrology::line_profiles::line_surface_deviations;
+    let open = Curve2::from_points(&[p2(0.0, 0.0), p2(3.0, 0.0), p2(3.0, 2.0), p2(5.0, 3.5)], 1e-6, false).unwrap(); // lengths 0, 3, 5, 7.5
+    // feet at lengths 0.75, 2.25, 4.0, 6.25 (edge interiors), offsets along the edge normals
+    let pts = [p2(0.75, -0.125), p2(2.25, 0.25), p2(3.0625, 1.0), p2(4.0 - 0.075, 2.75 + 0.1)];
+    let feet = [0.75, 2.25, 4.0, 6.25];
+    let ivs = [None, Some((0.0, 7.5)), Some((1.0, 5.0)), Some((4.5, 7.0)), Some((2.5, 3.5)), Some((0.8, 2.2))];
+    for it in isos.iter() { let t = &it.t;
+        let m = open.transformed_by(t); let mp: Vec<Point2> = pts.iter().map(|p| t * p).collect();
+        for iv in ivs.iter() {
+            r.case();
+            let i = iv.map(|(a, b)| Interval::new(a, b));
+            let want: Vec<usize> = (0..4).filter(|k| iv.map_or(true, |(a, b)| a <= feet[*k] && feet[*k] <= b)).collect();
+            let (x, y) = (line_surface_deviations(&open, &pts, i), line_surface_deviations(&m, &mp, i));
+            let d = || format!("open polyline (0,0),(3,0),(3,2),(5,3.5) {} interval {:?}: {} deviations in the reference frame, {} after moving curve and points by T (expected {})", it.name, iv, x.len(), y.len(), want.len());
+            r.check(x.len() == want.len() && y.len() == want.len(), "line_surface_deviations with Some(interval) selects the same points in every frame", d);
+            if x.len() == y.len() { for k in 0..x.len() {
+                r.check(close(x[k].deviation, y[k].deviation) && cp2(&y[k].surface.point, &(t * x[k].surface.point)) && cv2(&y[k].surface.normal.into_inner(), &(t * x[k].surface.normal.into_inner())), "line_surface_deviations with Some(interval): deviations are invariant, reference points move, directions only rotate", d);
+            } }
+        }
+    }
+}
+
+fn wave5(r: &mut Report) {
+    let (g3, g2) = (isos3(), isos2()); let (n3, n2) = (tiny_isos3(), tiny_isos2()); let (f3, f2) = (far_isos3(), far_isos2());
+    // (i) the existing entity checks under the FAR family
+    surface_points3(r, &f3); surface_points2(r, &f2); planes(r, &f3); segments(r, &f2); point_lists(r, &f3); distances(r, &f3, &f2);
+    curves2(r, &f2); curves3(r, &f3); meshes(r, &f3); planar_far_along_normal(r, &f3, &f2); deviations_near_edges(r, &f3); uv_mapped_mesh(r, &f3);
+    meshes_with_coincident_vertices(r, &f3); capped_queries_near_bbox_corners(r, &f3);
+    // (ii) the new entity checks under all three families
+    for (i3, i2) in [(&g3, &g2), (&n3, &n2), (&f3, &f2)] {
+        w5_surface_points(r, i3, i2); w5_planes(r, i3); w5_lines(r, i2); w5_points(r, i3, i2); w5_clouds(r, i3); w5_distances(r, i3, i2);
+        w5_curves2(r, i2, true); w5_curves3(r, i3, true); w5_meshes(r, i3, true); w5_line_deviation_interval(r, i2);
+    }
+}
+
 pub fn run() -> Option<Report> {
     let mut r = Report::new("isometries: 19 rotations (identity, quarter turns about x/y/z, 3 more cube-group elements, 30/45 degrees about an axis, 0.7 rad about (1,2,3), (1,1,1)->x) x 4 translations (up to (1000,-500,250)) in 3D, 8 rotations x 3 translations in 2D; entities with small integer / dyadic coordinates: 3 surface points per dimension, 4 planes, 3 segments, a 4-point cloud (with/without normals and colours), 5 Distance2 (direction None / explicit / against a->b), 7 Curve2 and 7 Curve3 point lists (open, closed, force-closed, vertices spaced 0.7..1.2 tol along axes and diagonals), a 2x3x4 box mesh (solid and not) with 7 tie-free queries; 3-4 query points per entity; all comparisons to 1e-9 relative; ILL-CONDITIONED: planar_distance / scalar_projection of points 10, 40, -75 along the normal and 0, 1e-6, 1e-5, 1e-4 off the normal line (3 surface points per dimension); signed deviations (ToPoint; ToPlane on rim edges) of points 1e-7, 3e-6, 1e-5, 1e-4, 1e-3, 1e-2 off box edges / a box corner / rim edges and a rim corner of an open roof mesh with offsets oblique to the face normal (below 1e-6 only rim edges); a UV-mapped open roof mesh with 5 queries x 3 (max_dist, max_angle): uv_with_tol with Some(T), on the moved mesh, and back through uv_to_3d; all under the same 76 isometries, 1e-9 absolute; ROUND 3: 49 isometries close to the identity: TINY non-zero rotations (1e-8, 1e-7, -1e-6, 3e-6, 1e-5 rad about z / x / (1,2,3) x translations none, (0.5,-0.25,2), (1000,-500,250)) plus translations of 1e-8 with no rotation / 1e-8 rad, and 20 such in 2D, on data far from the origin (7 points with normals at radius 1e3 and one near it, a Curve3 / Curve2 there, 3 planes, meshes: box 2x3x4 at (600,0,800), its triangle soup, two touching appended boxes at (-640,0,-768), a solid box at the origin): every bulk transform (points move by the full isometry, normals only rotate, T^-1 restores, composition) and closest points on the moved mesh; all entity checks of the first part repeated under these tiny isometries; Mesh::transform on meshes with coincident vertices (triangle soups of the box and of the open roof, touching appended boxes, a box appended to itself) under all 76 isometries: vertex count kept, vertex i == T * vertex i, faces and solid flag kept, inverse, composition; point_curve2_deviation / line_surface_deviations of points 1e-7 (edge interiors only), 3e-6, 1e-5, 1e-4, 1e-3, 1e-2 off 5 outside corners / 2 open ends (offsets strictly inside the cone of the edge normals) and 4 edge interiors of a closed square and an open polyline under 7 rotations x 4 translations (up to 1e3): deviation invariant and equal to the signed distance (1e-9 absolute), reference point moves, direction rotates (1e-9 + rounding of the offset direction); Mesh::project_with_max_dist / project_with_tol (direct, Some(T), moved) / indices_in_tol for queries 0.01, 0.05, 0.2 outside the 8 corners (3 directions inside the normal cone) and 8 edges of 4 boxes (2x3x4 solid and not, 16x1x0.5, 3x3x3) with caps 0.025, 0.1, 0.5 under all 76 isometries: found exactly when the distance is within the cap, in every frame");
     let i3 = isos3(); let i2 = isos2();
@@ -883,5 +1415,6 @@ pub fn run() -> Option<Report> {
     meshes_with_coincident_vertices(&mut r, &i3);
     deviations2_near_corners(&mut r);
     capped_queries_near_bbox_corners(&mut r, &i3);
+    wave5(&mut r);
     Some(r)
 }
